@@ -610,7 +610,10 @@ func (u *UnaryExpression) String() string {
 
 // Type returns the type of the UnaryExpression, such as bool or num.
 func (u *UnaryExpression) Type() *Type {
-	return u.Right.Type()
+	if u.Op == OP_BANG {
+		return BOOL_TYPE
+	}
+	return NUM_TYPE // OP_MINUS
 }
 
 // BinaryExpression is an AST node that represents a binary expression.
